@@ -83,14 +83,19 @@ def jobs_c02(tier, seed):
         J("c02::run_from_new_2", features=f, timeout_s=900, bound="every 2-byte stream from Parser::new()"),
     ]
     for n, b in STEP_CASES:
-        jobs.append(J(f"c02::{n}", features=f, timeout_s=1800, mem_gb=20, expect_gb=5, all_covers=False, min_covers=1,
-                      bound="one step from an arbitrary valid parser state: " + b))
-    # the documented limits: one OSC-limit shape per quick run (rotated by the seed), all eight in thorough
-    lim = STEP_LIMITS if tier == "thorough" else [STEP_LIMITS[5 + (seed % 3)]]
+        heavy = n.startswith("step_utf8")  # measured: 20-26 GB and 7-10 min each
+        if heavy and tier == "quick":
+            continue
+        jobs.append(J(f"c02::{n}", features=f, timeout_s=3600 if heavy else 1800, mem_gb=45 if heavy else 20, expect_gb=30 if heavy else 7, all_covers=False, min_covers=1,
+                      bound=("multi-step run from an arbitrary Ground state: " if heavy else "one step from an arbitrary valid parser state: ") + b))
+    # the documented limits (31/32 parameter values, 15/16 OSC fields): 25+ GB each, thorough only
+    lim = STEP_LIMITS if tier == "thorough" else []
     for n, b in lim:
-        jobs.append(J(f"c02::{n}", features=f, timeout_s=3600, mem_gb=30, expect_gb=16, all_covers=False, min_covers=1,
+        jobs.append(J(f"c02::{n}", features=f, timeout_s=3600, mem_gb=45, expect_gb=30, all_covers=False, min_covers=1,
                       bound="one step from an arbitrary valid parser state: " + b))
     if tier == "thorough":
+        jobs.append(J("c02::osc_param_limit_run", features=f, timeout_s=2 * 3600, mem_gb=40, expect_gb=20, optional=True,
+                      bound="from Parser::new(): ESC ] and 15 separators (concrete), 3 symbolic bytes, BEL (optional: did not finish in 15 min)"))
         jobs += [
             J("c02::run_from_new_3", features=f, timeout_s=3600, mem_gb=30, expect_gb=20, bound="every 3-byte stream from Parser::new()"),
             J("c02::run_from_new_4", features=f, timeout_s=2 * 3600, mem_gb=40, expect_gb=30, optional=True, bound="every 4-byte stream from Parser::new()"),
@@ -304,10 +309,10 @@ def jobs_c06(tier, seed):
         ("write_s_all_utf8", "write(): 1 symbolic byte inside a 3-byte character; inner writer accepts everything"),
         ("write_s_short0_utf8", "write(): 1 symbolic byte inside a 3-byte character; inner writer accepts 0 bytes (short write)"),
         ("write_s_err0_utf8", "write(): same state; inner writer fails at its first call (Interrupted / WouldBlock / Other)"),
-        ("write_s_short0_ground", "write(): 1 symbolic byte from Ground; short write of 0"),
         ("write_s_err0_csi", "write(): 1 symbolic byte inside a CSI sequence; error at the first inner call"),
     ]
     q2 = [
+        ("write_s_short0_ground", "write(): 1 symbolic byte from Ground; short write of 0"),
         ("write_s_short1_ground2", "write(): 2 symbolic bytes from Ground; inner writer accepts 1 byte"),
         ("write_s_err1_two_runs", "write(): text, C0 control, text (two printable runs, all symbolic); error at the second inner call"),
         ("write_s_short0_second_run", "write(): two printable runs; the second inner call accepts 0 bytes"),
@@ -611,7 +616,7 @@ REGISTRY = {
         "jobs": jobs_c06,
         "level": "model_checking",
         "functions": ["anstream::strip::{write, write_all, write_fmt, offset_to} behind StripStream::<&mut dyn Write>::{write, write_vectored, write_all, write_fmt}", "anstream::fmt::Adapter::{write_fmt, write_str}", "anstream::adapter::StripBytes::strip_next"],
-        "bounds": {"quick": "write(): 5 concrete inner-writer scripts (accept all / short write of 0 / error at the first inner call) x 1 symbolic byte x symbolic error kind, from carried states Ground, CsiEntry and inside a character; two concrete two-run buffers with an error / short write at the second inner call; write_all: 2 bytes from any state reachable by a 2-byte prefix, error at any inner call", "thorough": "write() of 2 symbolic bytes with a short write of 1; write_fmt of two fragments (optional); write() over two printable runs with an error / short write at the second inner call (optional: the replay after a short write makes this the most expensive query of the repository); fully symbolic scripts (accept sizes {0,1,2,3,all}, one error anywhere) for 1 byte from 5 carried states and 2 bytes from 3 (optional); write_vectored (optional)"},
+        "bounds": {"quick": "write(): 4 concrete inner-writer scripts (accept all / short write of 0 / error at the first inner call) x 1 symbolic byte x symbolic error kind, from carried states Ground, CsiEntry and inside a character; two concrete two-run buffers with an error / short write at the second inner call; write_all: 2 bytes from any state reachable by a 2-byte prefix, error at any inner call", "thorough": "write() of 2 symbolic bytes with a short write of 1; write_fmt of two fragments (optional); write() over two printable runs with an error / short write at the second inner call (optional: the replay after a short write makes this the most expensive query of the repository); fully symbolic scripts (accept sizes {0,1,2,3,all}, one error anywhere) for 1 byte from 5 carried states and 2 bytes from 3 (optional); write_vectored (optional)"},
         "outside": "longer buffers within one call; more than one injected error per call; the protocol over several calls follows by induction from the lemma's state clause (not unrolled)",
         "assumptions": ["the reference for 'stripped form' is an independent copy of StripBytes run on the consumed prefix (C01 ties StripBytes to the model)", "hook StripStream::verif_state observes the carried state", "inputs of the recorded C01 finding class (control byte inside broken UTF-8) are excluded while that finding is open"],
     },
@@ -752,8 +757,8 @@ REGISTRY = {
             "utf8parse::Parser::advance",
         ],
         "bounds": {
-            "quick": "transition function complete (14 states x 256 bytes); one-step refinement from an arbitrary valid state in 20 shapes (every state) plus 1 of the 3 OSC-limit shapes (15/16 fields; rotated by VERIF_SEED); lock-step runs from Parser::new() of <=2 bytes over all 256 values",
-            "thorough": "all 28 step shapes; runs of <=4 bytes (4 optional)",
+            "quick": "transition function complete (14 states x 256 bytes); one-step refinement from an arbitrary valid state in 17 shapes (every table-driven state); lock-step runs from Parser::new() of <=2 bytes over all 256 values (these cover a character's lead byte followed by any byte)",
+            "thorough": "adds the 3 multi-byte-character shapes from an arbitrary Ground state and the 8 limit shapes (31/32 parameter values, 15/16 OSC fields) -- 20-26 GB each; runs of <=4 bytes (4 optional)",
         },
         "outside": "streams longer than the run bound that are not covered by the one-step lemma's invariant; OSC payloads longer than the model buffer",
         "assumptions": [
